@@ -61,6 +61,8 @@ ns = NetworkSampling(ktn, coords, bh, hef, neb, sim)
 ns.get_minima(coords, steps, 1e-5, temp, test_valid=True)
 ns.get_transition_states('ClosestEnumeration', cycles, remove_bounds_minima=False)
 ns.get_transition_states('ConnectUnconnected', 1, remove_bounds_minima=False)
+# a further nearest-neighbour round: pairs that an earlier round attempted without joining them are RETRIED here
+ns.get_transition_states('ClosestEnumeration', 1, remove_bounds_minima=False)
 
 h = hashlib.sha256()
 rows = []
